@@ -18,6 +18,8 @@ open Viv.Py Viv.Stream
 
 inductive SFn where
   | join | strFn | lenFn | getHash | clock | keyMethod | randomState | series
+  /-- `np.asarray` / `np.array` / `list`-like copies: the same values -/
+  | ident
   | sample (ks : String)
 
 /-- the Python objects `RandomnessStream._key` and `get_draw` touch -/
@@ -70,7 +72,9 @@ def sGetAttr (st : Strm) : SV → String → M SV
   | .str sep, a => if a == "join" && sep == "_" then pure (.fn .join) else throw "AttributeError"
   | .idx req, a => if a == "empty" then pure (.bool req.isEmpty) else throw "AttributeError"
   | .modPd, a => if a == "Series" then pure (.fn .series) else throw "AttributeError"
-  | .modNp, a => if a == "random" then pure .modNpRandom else throw "AttributeError"
+  | .modNp, a =>
+    if a == "random" then pure .modNpRandom
+    else if a == "asarray" || a == "array" then pure (.fn .ident) else throw "AttributeError"
   | .modNpRandom, a => if a == "RandomState" then pure (.fn .randomState) else throw "AttributeError"
   | .rstate ks, a => if a == "random_sample" then pure (.fn (.sample ks)) else throw "AttributeError"
   | _, _ => throw "AttributeError"
@@ -96,6 +100,8 @@ def sPrim (st : Strm) : SFn → List SV → List (String × SV) → M SV
   | .getHash, [.str ks], [] => pure (.seedOf ks)
   | .randomState, [], [(_, .seedOf ks)] => pure (.rstate ks)
   | .sample ks, [.int n], [] => pure (.block ks n.toNat)
+  | .ident, [.positions ps], [] => pure (.positions ps)
+  | .ident, [.values vs], [] => pure (.values vs)
   | .series, [], [(_, .idx _), (_, .floatT)] => pure (.series [])
   | .series, [.values vs], [(_, .idx req)] => mkSeries vs req
   | _, _, _ => throw "TypeError"
